@@ -2,6 +2,13 @@
 
 package hsrv
 
+import "net/http"
+
 // VerifAddr returns the address the server's listener is bound to.  Added by
 // the verification build overlay only.
 func (s *Server) VerifAddr() string { return s.l.Addr().String() }
+
+// VerifHandler returns the handler tree the server serves (the real mux with
+// the real handlers), so that requests with scripted bodies can be put through
+// it without a network in between.
+func (s *Server) VerifHandler() http.Handler { return s.newMux() }
